@@ -38,6 +38,9 @@ class Equivalence(metaclass=_RegisteredEquivalence):
 
     def convert(self, x, new_dims, **kwargs):
         if x.units.dimensions in self._dims and new_dims in self._dims:
+            if not self.in_place and x.dtype.kind in ("i", "u"):
+                # integer data: x*x or x**4 would wrap around in integer arithmetic
+                x = x.astype("float64")
             return self._convert(x, new_dims, **kwargs)
         else:
             raise InvalidUnitEquivalence(self, x.units, new_dims)
